@@ -707,9 +707,17 @@ class World:
             elif where == 'end':
                 pos = block_e - 1
             else:
-                if n >= len(it['stmts']):
+                if isinstance(n, str):
+                    want = re.sub(r'\s+', ' ', n)
+                    hits = [x for x in it['stmts']
+                            if re.sub(r'\s+', ' ', src[x['span'][0]:x['span'][1]].decode()).startswith(want)]
+                    if len(hits) != 1:
+                        raise Inconclusive(f'lost anchor: {len(hits)} top-level statements of {cname} start with {want!r}')
+                    st = hits[0]
+                elif n >= len(it['stmts']):
                     raise Inconclusive(f'lost anchor: {cname} has {len(it["stmts"])} statements, hint names {n}')
-                st = it['stmts'][n]
+                else:
+                    st = it['stmts'][n]
                 pos = st['span'][1] if where == 'after' else st['span'][0]
                 if where == 'after':
                     # include a trailing `;` if the span stopped short of it
